@@ -7,9 +7,9 @@ out=/verif/seeded/${OUTNAME:-$id}; mkdir -p "$out"
 wt=$(mktemp -d /tmp/confirm.XXXXXX)
 git -C /repo worktree add -q --detach "$wt" HEAD || exit 3
 cp "$src/demo_$id.py" "$wt/"
-( cd "$wt" && PYTHONPATH="$wt:/tmp/seedkit" /venv/bin/python demo_$id.py > /tmp/confirm_$id.clean 2>&1 ); rc_clean=$?
+( cd "$wt" && PYTHONPATH="$wt:/verif/seeded/_kit" /venv/bin/python demo_$id.py > /tmp/confirm_$id.clean 2>&1 ); rc_clean=$?
 if ! git -C "$wt" apply "$patch"; then echo "$id: patch does not apply"; git -C /repo worktree remove --force "$wt"; exit 3; fi
-( cd "$wt" && PYTHONPATH="$wt:/tmp/seedkit" /venv/bin/python demo_$id.py > /tmp/confirm_$id.seeded 2>&1 ); rc_seeded=$?
+( cd "$wt" && PYTHONPATH="$wt:/verif/seeded/_kit" /venv/bin/python demo_$id.py > /tmp/confirm_$id.seeded 2>&1 ); rc_seeded=$?
 ( cd "$wt" && rm -rf .hypothesis && PYTHONPATH="$wt" /venv/bin/python -m pytest -q -p no:cacheprovider --timeout=900 --continue-on-collection-errors --hypothesis-seed=0 -k "not test_convert and not test_density_zeros" > /tmp/confirm_$id.tests 2>&1 ); rc_tests=$?
 tests=$(tail -1 /tmp/confirm_$id.tests)
 VT4_REPO="$wt" /verif/check "$checkid" quick > /tmp/confirm_$id.check 2>&1; rc_check=$?
@@ -29,7 +29,7 @@ meta = {'property': id_, 'source': 'fresh sub-agent given only the property text
                       'baseline_tests_with_change': tests.strip(), 'baseline_tests_exit': int(rc_tests)},
         'detected_by': {'check': checkid, 'tier': 'quick', 'exit': int(rc_check), 'violation_lines': int(nviol)},
         'ran': ['git worktree add --detach <tmp> HEAD; git apply patch.diff',
-                'PYTHONPATH=<tmp>:/tmp/seedkit /venv/bin/python demo_%s.py (before and after the patch)' % id_,
+                'PYTHONPATH=<tmp>:/verif/seeded/_kit /venv/bin/python demo_%s.py (before and after the patch)' % id_,
                 'pytest -k "not test_convert and not test_density_zeros" in the patched worktree',
                 'VT4_REPO=<tmp> /verif/check %s quick' % checkid]}
 json.dump(meta, open('/verif/seeded/%s/meta.json' % outname, 'w'), indent=1)
